@@ -5,6 +5,7 @@ for EVERY key kind (also EC keys of arbitrary size).
 -/
 import KitProofs.Lemmas.CryptoGlueKWSpec
 import KitProofs.Lemmas.CryptoGlueSpec
+import KitProofs.Lemmas.CryptoGlueNF
 namespace Kit.CryptoGlue
 open Kit Kit.CryptoGlue.Facts
 
@@ -335,5 +336,30 @@ theorem aead_input_inj (ct tag ct' tag' nonce nonce' ad ad' : Bytes) (ht : tag'.
   injection h2 with h2 h3
   obtain ⟨hc, htg⟩ := List.append_inj' h2 ht
   exact ⟨hc, htg, h1, h3⟩
+
+/-- The AEAD object a listed AEAD name (GCM, CBC-HMAC, (X)ChaCha20-Poly1305) is decrypted with. -/
+def SymAeadOf (P : Prims) (alg : String) (d : Denotes) (key : Bytes) (a : AEAD) : Prop :=
+  (d.family = .gcm ∧ a = P.gcm key) ∨
+  (d.family = .cbchmac ∧ ∃ c p, Generated.C03.cbcHmacCiphers.find? (·.name == alg) = some c ∧
+      Generated.C03.aescbcaeadParams.find? (·.ctor == c.ctor) = some p ∧ a = cbcHmacAEAD P p key) ∨
+  (d.family = .chacha ∧ ∃ c, Generated.C03.chachaCiphers.find? (·.names.contains alg) = some c ∧
+      a = chachaAEAD P c key)
+
+/-- Core of the tamper statement at the level of `decryptSymmetricAEAD`. -/
+theorem decryptAEAD_tampered (a : AEAD) (nonce ad ct tag : Bytes) (htl : tag.length = a.overhead)
+    (ct' nonce' tag' ad' : Bytes) (hchanged : (ct', nonce', tag', ad') ≠ (ct, nonce, tag, ad))
+    (hNF : (nonce', ct' ++ tag', ad') ≠ (nonce, ct ++ tag, ad) →
+      ∃ e, a.doOpen nonce' (ct' ++ tag') ad' = .err e) :
+    ∃ e, decryptAEAD a ct' nonce' tag' ad' = .err e := by
+  rw [decryptAEAD_eq]
+  by_cases hn : nonce'.length ≠ a.nonceSize
+  · exact ⟨_, by rw [if_pos hn]⟩
+  · by_cases ht : tag'.length ≠ a.overhead
+    · exact ⟨_, by rw [if_neg hn, if_pos ht]⟩
+    · rw [if_neg hn, if_neg ht]
+      apply hNF
+      intro heq
+      obtain ⟨h1, h2, h3, h4⟩ := aead_input_inj ct tag ct' tag' nonce nonce' ad ad' (by omega) heq
+      exact hchanged (by rw [h1, h2, h3, h4])
 
 end Kit.CryptoGlue
